@@ -322,6 +322,11 @@ func c16Job(shard, nshards int, tier string) Job {
 					starts = append(starts, start{name: "pod event: cli2 (ns2) gets its address", pods: replace("cli2", "cli2-pending"), pols: pl,
 						events: []c15Event{{Kind: "pod-update", Pod: pwPodMenu["cli2"], Old: pwPodMenu["cli2-pending"]}}})
 				}
+				if has("db") {
+					// a pod of the policies' own namespace gets its address (pod-selector peers select within that namespace only)
+					starts = append(starts, start{name: "pod event: db (ns1) gets its address", pods: replace("db", "db-noip"), pols: pl,
+						events: []c15Event{{Kind: "pod-update", Pod: pwPodMenu["db"], Old: pwPodMenu["db-noip"]}}})
+				}
 				starts = append(starts, start{name: "pod event: a pod of ns2 on another node is deleted", pods: append(append([]string{}, ps...), "ghost2"), pols: pl,
 					events: []c15Event{{Kind: "pod-delete", Pod: pwPodMenu["ghost2"]}}})
 				if has("db-plain") {
@@ -442,7 +447,7 @@ func quirkSet(mask int) []string {
 func init() {
 	register(&Property{ID: "C16", Level: "exploration", QuickS: 120, ThoroughS: 900,
 		Assume: []string{"verdicts come from a packet walk (table filter, hook FORWARD, NEW connections) over the rules and sets the real PolicyManager installed in the netfilter simulator mc/nfsim",
-			"clusters: 2 namespaces, pods web/db/cli2 (on or off the node), all sets of <=3 policies out of 17 shapes (two rules sharing their first peer, pod/namespace/combined selectors, ipBlock with except, tcp/udp ports incl. one number under both protocols and a port without protocol, deny-all, allow-all, both directions, implicit egress type)",
+			"clusters: 2 namespaces, pods web/db/cli2 (on or off the node), all sets of <=3 policies out of 19 shapes (two rules sharing their first peer, pod/namespace/combined selectors, ipBlock with except, tcp/udp ports incl. one number under both protocols and a port without protocol, deny-all, allow-all, both directions, implicit egress type)",
 			"flows: every ordered pair of pod and external addresses (inside block / inside except / outside) with a local pod at either end x {tcp,udp} x {80,81,53}; host-originated traffic, named ports and SCTP are outside the alphabet",
 			"reference = evaluator written from the NetworkPolicy API semantics with five named, switchable deviations used only to attribute disagreements to known findings"},
 		Rule: "for every (pod set, policy set): one real full sync, then every flow is walked through the installed rules and compared with the reference verdict; distinct/non-trivial = distinct (cluster, policies, flow, verdict) tuples",
